@@ -634,6 +634,10 @@ def weave_rec(local):
     if isinstance(c, RegionOpView):
         # the regions of an unknown op may run any number of times, later runs start from whatever the previous run left
         check("the nested weave of an op whose regions may run repeatedly starts without any assumed state", len(passed) == 0)
+    elif W.get("for_op") is not None and c is W["for_op"]:
+        # the whole loop handed to a nested weave (the path taken for bodies with effects): it runs any number of times and
+        # every iteration after the first starts from whatever the previous one left
+        check("the nested weave of a loop whose body may change accelerator state starts without any assumed state", len(passed) == 0)
     elif W.get("for_op") is not None and c is W["for_op"].body:
         # a loop body: a loop-carried block argument stands for "the state at the head of THIS iteration"; any other
         # value is only right at the head of every iteration if nothing in the body can change that accelerator
